@@ -112,6 +112,17 @@ pub fn case_text(c: &SimCase) -> String {
         lines.push((*t, format!("{t},{}\n", if *sent { "sp" } else { "rp" })));
     }
     lines.sort_by_key(|l| l.0);
+    // line_style / 3 != 0: the lines in a scrambled order (the parser accepts any order)
+    let key = (c.line_style / 3) as u64;
+    if key != 0 && c.repeat <= 1 {
+        let mut x = key.wrapping_mul(0x9E37_79B9_7F4A_7C15) ^ c.seed | 1;
+        for i in (1..lines.len()).rev() {
+            x ^= x << 13;
+            x ^= x >> 7;
+            x ^= x << 17;
+            lines.swap(i, (x % (i as u64 + 1)) as usize);
+        }
+    }
     lines.into_iter().map(|l| l.1).collect()
 }
 
@@ -316,7 +327,8 @@ pub fn text_extras() -> BoxedStrategy<(Vec<(u64, bool)>, u8)> {
             3 => Just(vec![]),
             1 => proptest::collection::vec((0u64..3_000_000_000, any::<bool>()), 1..=6),
         ],
-        0u8..3,
+        // style (mod 3) and line order (div 3: 0 sorted, otherwise scrambled)
+        prop_oneof![3 => 0u8..3, 1 => 3u8..12],
     )
         .boxed()
 }
